@@ -18,18 +18,25 @@ func ruleBindAfterAllocate(c *Ctx, rule string) {
 	}
 	al := calls(fn, "(*FloatingIPPlugin).allocateIP")
 	binds := callsDeep(fn, "PodInterface).Bind", "PodExpansion).Bind")
+	polls := calls(fn, "wait.PollImmediate")
+	if len(binds) == 0 {
+		// the bind/retry block may have been extracted into a helper of Bind
+		for _, h := range helperFns(fn, 2) {
+			binds = append(binds, callsDeep(h, "PodInterface).Bind", "PodExpansion).Bind")...)
+			polls = append(polls, callsLocal(h, "wait.PollImmediate")...)
+		}
+	}
 	if len(al) != 1 || len(binds) == 0 {
 		c.undecided(rule, fn, "allocateIP / Pods().Bind", nil, "expected one allocateIP call and at least one Bind call")
 		return
 	}
 	// the Bind call sits in the closure given to PollImmediate; the poll call itself must be after success
-	polls := calls(fn, "wait.PollImmediate")
 	var ms []ssa.Instruction
 	for _, p := range polls {
 		ms = append(ms, p)
 	}
 	for _, b := range binds {
-		if b.Parent() == fn {
+		if b.Parent().Parent() == nil { // not inside a closure (those are reached through the poll call)
 			ms = append(ms, b)
 		}
 	}
